@@ -229,6 +229,103 @@ theorem C08.caught_up (tm0 : Timing) (hv : tm0.valid) (hc : tm0.isCyclic = false
 
 /-! ### `delay=False`: the first run belongs to `start`, afterwards nothing is lost either -/
 
+/-! ### skip_missing over every polling history -/
+
+/-- timers of a skipping job that are fresh w.r.t. the last poll `a`, well-formed, and whose timings
+    all have the awareness `aw` (that of the scheduler's clock readings) -/
+def SkipInv (j : Job) (a : Int) (aw : Bool) : Prop :=
+  j.skip = true ∧ j.timers ≠ [] ∧
+  ∀ tm ∈ j.timers, tm.WF ∧ tm.skip = true ∧ tm.timing.off.isSome = aw ∧ tm.Fresh a
+
+theorem SkipInv.run (j : Job) (a : Int) (aw : Bool) (h : SkipInv j a aw) (ref : DT) (hat : a ≤ ref.inst)
+    (hr : ref.off.isSome = aw) (raises : Bool) : SkipInv (j.run ref raises) ref.inst aw := by
+  obtain ⟨hs, hne, hall⟩ := h
+  have hwf : ∀ tm ∈ j.timers, tm.WF ∧ tm.skip = true ∧ ref.off.isSome = tm.timing.off.isSome :=
+    fun tm htm => ⟨(hall tm htm).1, (hall tm htm).2.1, by rw [hr, (hall tm htm).2.2.1]⟩
+  have hfresh : ∀ tm ∈ j.timers, tm.Fresh a := fun tm htm => (hall tm htm).2.2.2
+  have key := C08.skip_job j hs ref a hat hwf hfresh raises
+  have ht : (j.run ref raises).timers =
+      j.timers.map (fun t => if t.next.inst - ref.inst ≤ 0 then t.calcNext (some ref) else t) := by
+    simp [Job.run, Job.calcNext, Job.exec1, hs]
+  refine ⟨by simp [Job.run, Job.calcNext, Job.exec1, hs], by rw [ht]; simpa using hne, ?_⟩
+  intro tm htm
+  obtain ⟨k1, k2, k3⟩ := key tm htm
+  refine ⟨k1, k2, ?_, k3⟩
+  rw [ht] at htm
+  obtain ⟨t0, h0, rfl⟩ := List.mem_map.mp htm
+  obtain ⟨wf, sk, awt, _⟩ := hall t0 h0
+  by_cases hd : t0.next.inst - ref.inst ≤ 0
+  · simp only [hd, if_true]
+    have := (C08.skip_timer t0 wf sk ref (by rw [hr, awt]) (by omega)).2.2.2.2.1
+    rw [this]; exact awt
+  · simp only [hd, if_false]; exact awt
+
+/-- polls happen at non-decreasing instants, none before `a` -/
+def PollsFrom (a : Int) : List DT → Prop
+  | [] => True
+  | r :: rs => a ≤ r.inst ∧ PollsFrom r.inst rs
+
+/-- **skip_missing, every polling history** — for every job type with clock-time / weekday timings
+    (batched or not), every start, every offsets, and every sequence of polls at non-decreasing
+    instants (however long the gaps, forced or not): after each invocation at `t` the due time is an
+    occurrence of one of the job's times, is not earlier than `t`, and no occurrence of any of its
+    times lies strictly between `t` and it — so any backlog collapses into that one invocation -/
+theorem C08.skip_all_histories (tms : List Timing) (hne : tms ≠ [])
+    (hv : ∀ tm ∈ tms, tm.valid ∧ tm.isCyclic = false) (start : DT)
+    (ha : ∀ tm ∈ tms, start.off.isSome = tm.off.isSome) (stop : Option DT) (m : Int)
+    (refs : List DT) (last : DT) (hp : PollsFrom start.inst (refs ++ [last]))
+    (haw : ∀ r ∈ refs ++ [last], r.off.isSome = start.off.isSome) :
+    let j' := (refs ++ [last]).foldl (fun j r => j.run r false) (Job.build tms start stop true true m)
+    (∃ tm ∈ j'.timers, Occ tm.timing j'.due.inst) ∧ last.inst ≤ j'.due.inst ∧
+    ∀ tm ∈ j'.timers, ∀ v, last.inst < v → v < j'.due.inst → ¬ Occ tm.timing v := by
+  intro j'
+  -- the invariant holds at creation …
+  have h0 : SkipInv (Job.build tms start stop true true m) start.inst start.off.isSome := by
+    refine ⟨rfl, by simpa [Job.build] using hne, ?_⟩
+    intro tm htm
+    simp only [Job.build, List.mem_map] at htm
+    obtain ⟨t0, ht0, rfl⟩ := htm
+    obtain ⟨v0, c0⟩ := hv t0 ht0
+    have hinit : Timer.init t0 start true = { timing := t0, next := advance t0 start, skip := true } := by
+      unfold Timer.init; rw [Timer.calcNext_none _ c0]
+    have hw := advance_window t0 v0 c0 start (ha t0 ht0)
+    refine ⟨?_, by rw [hinit], by rw [hinit]; exact (ha t0 ht0).symm, C08.fresh_at_creation t0 v0 c0 start (ha t0 ht0) true⟩
+    rw [hinit]; exact ⟨v0, c0, by simp [hw.2.2.2]⟩
+  -- … and along every history of polls
+  have key : ∀ (rs : List DT) (j : Job) (a : Int), SkipInv j a start.off.isSome → PollsFrom a rs →
+      (∀ r ∈ rs, r.off.isSome = start.off.isSome) →
+      ∀ (l : DT), rs.getLast? = some l → SkipInv (rs.foldl (fun j r => j.run r false) j) l.inst start.off.isSome := by
+    intro rs
+    induction rs with
+    | nil => intro j a _ _ _ l hl; simp at hl
+    | cons r rs ih =>
+        intro j a hj hpo hawr l hl
+        obtain ⟨p1, p2⟩ := hpo
+        have hj' := SkipInv.run j a _ hj r p1 (hawr r (by simp)) false
+        simp only [List.foldl_cons]
+        cases rs with
+        | nil =>
+            simp at hl; subst hl
+            simpa using hj'
+        | cons r2 rs2 =>
+            exact ih (j.run r false) r.inst hj' p2 (fun x hx => hawr x (by simp [hx])) l (by simpa using hl)
+  have hfin := key (refs ++ [last]) _ start.inst h0 hp haw last (by simp)
+  -- read the statement off the invariant (as in `skip_due`)
+  obtain ⟨hs, hne', hall⟩ := hfin
+  have hpd : j'.pending = argmin (fun (t : Timer) => t.next.inst) j'.timers ∧ (!j'.delay && j'.attempts == 0) = false := by
+    have : ∃ j0 r0, j' = Job.run j0 r0 false := by
+      refine ⟨refs.foldl (fun j r => j.run r false) (Job.build tms start stop true true m), last, ?_⟩
+      simp [j', List.foldl_append]
+    obtain ⟨j0, r0, e⟩ := this
+    rw [e]
+    exact ⟨by simp [Job.run, Job.calcNext], by simp [Job.run, Job.calcNext, Job.exec1]⟩
+  obtain ⟨⟨tm, htm, hdue⟩, hmin⟩ := due_is_min j' hne' hpd.1 hpd.2
+  obtain ⟨_, _, _, f1, f2, _⟩ := hall tm htm
+  refine ⟨⟨tm, htm, by rw [hdue]; exact f1⟩, by rw [hdue]; exact f2, ?_⟩
+  intro tm' htm' v hv1 hv2
+  obtain ⟨_, _, _, _, _, g3⟩ := hall tm' htm'
+  exact g3 v hv1 (by have := hmin tm' htm'; omega)
+
 /-- a `delay=False` job past its first run and a `delay=True` job with the same timers plan alike -/
 structure SamePlan (j j' : Job) : Prop where
   timers : j.timers = j'.timers
